@@ -1506,16 +1506,24 @@ class ProvBundle(object):
         # TODO: Check unification rules in the PROV-CONSTRAINTS document
         # This method simply merges the records having the same name
         merged_records = dict()
-        for identifier, records in self._id_map.items():
-            if len(records) > 1:
-                # more than one record having the same identifier
-                # merge the records
-                merged = records[0].copy()
-                for record in records[1:]:
-                    merged.add_attributes(record.attributes)
-                # map all of them to the merged record
-                for record in records:
-                    merged_records[record] = merged
+        for identifier, id_records in self._id_map.items():
+            if len(id_records) < 2:
+                continue
+            # records sharing an identifier are only merged with records of
+            # the same type (e.g. an entity and an agent stay two records)
+            records_by_type = dict()
+            for record in id_records:
+                records_by_type.setdefault(record.get_type(), []).append(record)
+            for records in records_by_type.values():
+                if len(records) > 1:
+                    # more than one record having the same identifier
+                    # merge the records
+                    merged = records[0].copy()
+                    for record in records[1:]:
+                        merged.add_attributes(record.attributes)
+                    # map all of them to the merged record
+                    for record in records:
+                        merged_records[record] = merged
         if not merged_records:
             # No merging done, just return the list of original records
             return list(self._records)
